@@ -90,6 +90,11 @@ func genHeapPlan(t *rapid.T) HeapPlan {
 		}
 		p.Ops = append(p.Ops, o)
 	}
+	if rapid.IntRange(0, 24).Draw(t, "bulk") == 0 { // one plan in 25 goes through thousands of items somewhere
+		at := rapid.IntRange(0, len(p.Ops)).Draw(t, "bulkat")
+		b := HOp{Op: "Bulk", N: rapid.IntRange(0, 3999).Draw(t, "bulkn"), Pri: rapid.IntRange(0, 99).Draw(t, "bulkseed")}
+		p.Ops = append(p.Ops[:at], append([]HOp{b}, p.Ops[at:]...)...)
+	}
 	return p
 }
 
@@ -167,6 +172,38 @@ func runHeap(p HeapPlan) (vk.Outcome, error) {
 			if phase == 1 {
 				phase = 2
 			}
+		case "Bulk":
+			// thousands of items, then drained again (storage policies change with size): every popped item is
+			// held, and the drain comes out in non-decreasing order
+			n := 1100 + o.N%4000
+			x := o.Pri*7919 + 13
+			for j := 0; j < n; j++ {
+				x = (x*1103515245 + 12345) & 0x7fffffff
+				nextID++
+				pr := (x >> 8) % 1000
+				h.Push(Elem{pr, nextID})
+				model[nextID] = pr
+			}
+			if h.Len() != len(model) {
+				return out, vk.Violf("len", "step %d: after a bulk push Len()=%d model %d", i, h.Len(), len(model))
+			}
+			var prev *Elem
+			for len(model) > n%50 {
+				e := h.Pop()
+				if pr, ok := model[e.ID]; !ok || pr != e.Pri {
+					return out, vk.Violf("not-held", "step %d: bulk drain returned %+v which the heap does not hold (%d items left)", i, e, len(model))
+				}
+				delete(model, e.ID)
+				if prev != nil && ord(e.Pri, prev.Pri) < 0 {
+					return out, vk.Violf("drain-order", "step %d: bulk drain returned priority %d after %d (%d items left)", i, e.Pri, prev.Pri, len(model))
+				}
+				ee := e
+				prev = &ee
+				if h.Len() != len(model) {
+					return out, vk.Violf("len", "step %d: during the bulk drain Len()=%d model %d", i, h.Len(), len(model))
+				}
+			}
+			out.Label("bulk>1000")
 		case "PushN":
 			for j := 0; j < o.N; j++ {
 				nextID++
@@ -336,6 +373,11 @@ func genQueuePlan(t *rapid.T) QueuePlan {
 	}
 	if rapid.IntRange(0, 3).Draw(t, "ptype") == 0 {
 		p.PType = "slice"
+	}
+	if rapid.IntRange(0, 24).Draw(t, "bulk") == 0 {
+		at := rapid.IntRange(0, len(p.Ops)).Draw(t, "bulkat")
+		b := QOp{Op: "Bulk", N: rapid.IntRange(0, 3999).Draw(t, "bulkn"), Pri: rapid.IntRange(0, 99).Draw(t, "bulkseed")}
+		p.Ops = append(p.Ops[:at], append([]QOp{b}, p.Ops[at:]...)...)
 	}
 	return p
 }
@@ -587,6 +629,50 @@ func runQueueT[P any](p QueuePlan, mkP func(int) P, unP func(P) int) (vk.Outcome
 					return r.out, err
 				}
 			}
+		case "Bulk":
+			// thousands of keys, then popped again: every popped key is held with the priority it was given, the
+			// drain is in non-decreasing priority order, lookups of a few of the bulk keys are right on the way
+			n := 1100 + o.N%4000
+			x := o.Pri*7919 + 13
+			for j := 0; j < n; j++ {
+				x = (x*1103515245 + 12345) & 0x7fffffff
+				k := 100000 + j
+				pr := (x >> 8) % 1000
+				r.q.Update(k, mkP(pr))
+				r.model[k] = pr
+			}
+			if r.q.Len() != len(r.model) {
+				return r.out, vk.Violf("len", "%s: after a bulk insert Len()=%d model %d", what, r.q.Len(), len(r.model))
+			}
+			havePrev, prev := false, 0
+			for j := 0; len(r.model) > n%50; j++ {
+				k := r.q.Pop()
+				pr, ok := r.model[k]
+				if !ok {
+					return r.out, vk.Violf("not-held", "%s: bulk drain returned key %d which the queue does not hold (%d keys left)", what, k, len(r.model))
+				}
+				delete(r.model, k)
+				if havePrev && r.ord(pr, prev) < 0 {
+					return r.out, vk.Violf("drain-order", "%s: bulk drain returned priority %d after %d (%d keys left)", what, pr, prev, len(r.model))
+				}
+				havePrev, prev = true, pr
+				if r.q.Contains(k) || r.q.Len() != len(r.model) {
+					return r.out, vk.Violf("len", "%s: during the bulk drain: Contains(popped key %d)=%v Len()=%d model %d", what, k, r.q.Contains(k), r.q.Len(), len(r.model))
+				}
+				if probe := 100000 + (j*37)%n; j%64 == 0 {
+					mp, held := r.model[probe]
+					if r.q.Contains(probe) != held || (held && unP(r.q.Priority(probe)) != mp) {
+						return r.out, vk.Violf("lookup", "%s: during the bulk drain key %d: Contains=%v Priority=%v, model %v %d", what, probe, r.q.Contains(probe), r.q.Priority(probe), held, mp)
+					}
+				}
+			}
+			for k := range r.model { // what is left of the bulk goes away too: the observation below only looks at the small universe
+				if k >= 100000 {
+					r.q.Remove(k)
+					delete(r.model, k)
+				}
+			}
+			r.out.Label("bulk>1000")
 		case "Grow":
 			r.q.Grow(o.N)
 		case "Contains", "Priority":
